@@ -51,27 +51,90 @@ func simpleGlyph(o int) *glyf.Glyph {
 	}
 }
 
+// compEncoding says how component i (of n) of the composite with outline id o
+// is encoded.  The abstract font only knows the component glyph ids; flags,
+// arguments, transformation and instructions are part of the opaque outline
+// and are derived from the outline id, so that every kind of component record
+// the format has occurs: byte and word arguments, offsets and point numbers,
+// no / uniform / x-y / 2x2 transformation, USE_MY_METRICS, ROUND_XY_TO_GRID,
+// OVERLAP_COMPOUND, (UN)SCALED_COMPONENT_OFFSET, WE_HAVE_INSTRUCTIONS.
+// The first component always has word arguments holding the outline id.
+func compEncoding(o, i, n int) (fl glyf.ComponentFlag, data []byte) {
+	h := (o*7 + i*13) % 8
+	if i == 0 {
+		fl = glyf.FlagArgsAreXYValues | glyf.FlagArg1And2AreWords
+		data = []byte{byte(o >> 8), byte(o), 0, byte(n)}
+	} else {
+		switch h {
+		case 1:
+			fl = glyf.FlagArgsAreXYValues | glyf.FlagArg1And2AreWords
+			data = []byte{0, byte(i), 0xFF, byte(3 * i)}
+		case 2:
+			data = []byte{byte(i), byte(i + 1)} // point numbers
+		case 3:
+			fl = glyf.FlagArg1And2AreWords // point numbers as words
+			data = []byte{0, byte(i), 0, byte(i + 1)}
+		default:
+			fl = glyf.FlagArgsAreXYValues
+			data = []byte{byte(i), byte(3 * i)}
+		}
+	}
+	switch h {
+	case 4:
+		fl |= glyf.FlagRoundXYToGrid
+	case 5:
+		fl |= glyf.FlagOverlapCompound
+	case 6:
+		fl |= glyf.FlagScaledComponentOffset
+	case 7:
+		fl |= glyf.FlagUnscaledComponentOffset | glyf.FlagRoundXYToGrid
+	}
+	switch (o/8 + i) % 4 {
+	case 1:
+		fl |= glyf.FlagWeHaveAScale
+		data = append(data, 0x20, byte(o))
+	case 2:
+		fl |= glyf.FlagWeHaveAnXAndYScale
+		data = append(data, 0x40, byte(i), 0x30, byte(o))
+	case 3:
+		fl |= glyf.FlagWeHaveATwoByTwo
+		data = append(data, 0x40, 0, 0x10, byte(i), 0xF0, byte(o), 0x40, 0)
+	}
+	if compUseMyMetrics(o, i) {
+		fl |= glyf.FlagUseMyMetrics
+	}
+	if i+1 < n {
+		fl |= glyf.FlagMoreComponents
+	} else if compInstructions(o) != nil {
+		fl |= glyf.FlagWeHaveInstructions
+	}
+	return fl, data
+}
+
+func compUseMyMetrics(o, i int) bool { return (o+2*i)%3 == 0 }
+
+// compInstructions: nil (no instructions), an empty or a non-empty program.
+func compInstructions(o int) []byte {
+	switch o % 5 {
+	case 1:
+		return []byte{0xB0, byte(o), 0x2D}
+	case 3:
+		return []byte{0xB1, byte(o >> 8), byte(o), 0x21}
+	}
+	return nil
+}
+
 // compositeGlyph stores the outline id in the (word) offsets of its first
 // component.
 func compositeGlyph(o int, comps []int) *glyf.Glyph {
 	cc := make([]glyf.GlyphComponent, len(comps))
 	for i, c := range comps {
-		fl := glyf.FlagArgsAreXYValues
-		var data []byte
-		if i == 0 {
-			fl |= glyf.FlagArg1And2AreWords
-			data = []byte{byte(o >> 8), byte(o), 0, byte(len(comps))}
-		} else {
-			data = []byte{byte(i), byte(3 * i)}
-		}
-		if i+1 < len(comps) {
-			fl |= glyf.FlagMoreComponents
-		}
+		fl, data := compEncoding(o, i, len(comps))
 		cc[i] = glyf.GlyphComponent{Flags: fl, GlyphIndex: glyph.ID(c), Data: data}
 	}
 	return &glyf.Glyph{
 		Rect16: funit.Rect16{LLx: 0, LLy: 0, URx: funit.Int16(o & 0x3fff), URy: 30},
-		Data:   glyf.CompositeGlyph{Components: cc},
+		Data:   glyf.CompositeGlyph{Components: cc, Instructions: compInstructions(o)},
 	}
 }
 
@@ -113,6 +176,22 @@ func gsubInfo(d *Desc) *gtab.Info {
 					st.SubstituteGlyphIDs = append(st.SubstituteGlyphIDs, glyph.ID(e[1]))
 				}
 				t.Subtables = append(t.Subtables, st)
+			case "mult", "alt":
+				cov := coverage.Table{}
+				var outs [][]glyph.ID
+				for i, e := range s.Multi {
+					cov[glyph.ID(e.G)] = i
+					outs = append(outs, toGIDs(e.Outs))
+				}
+				if s.Kind == "mult" {
+					t.Meta.LookupType = 2
+					tag = "ccmp"
+					t.Subtables = append(t.Subtables, &gtab.Gsub2_1{Cov: cov, Repl: outs})
+				} else {
+					t.Meta.LookupType = 3
+					tag = "salt"
+					t.Subtables = append(t.Subtables, &gtab.Gsub3_1{Cov: cov, Alternates: outs})
+				}
 			case "lig":
 				t.Meta.LookupType = 4
 				tag = "liga"
@@ -184,6 +263,8 @@ func Build(d *Desc) (*sfnt.Font, error) {
 		o := &glyf.Outlines{Maxp: &maxp.TTFInfo{MaxComponentDepth: 8, MaxComponentElements: 8}}
 		for _, g := range d.Glyphs {
 			switch {
+			case len(g.Comps) > 0 && g.O == 0:
+				return nil, fmt.Errorf("outline id 0 is the blank glyph; it has no components")
 			case len(g.Comps) > 0:
 				o.Glyphs = append(o.Glyphs, compositeGlyph(g.O, g.Comps))
 			case g.O == 0:
@@ -232,6 +313,7 @@ func Build(d *Desc) (*sfnt.Font, error) {
 		f.CMapTable = cmap.Table{}
 		for _, c := range d.CMaps {
 			var st cmap.Subtable
+			var raw []byte
 			switch c.Fmt {
 			case 4:
 				m := cmap.Format4{}
@@ -245,10 +327,45 @@ func Build(d *Desc) (*sfnt.Font, error) {
 					m[uint32(e[0])] = glyph.ID(e[1])
 				}
 				st = m
+			case 6:
+				// trimmed table mapping: the codes lo..hi, glyph 0 in the gaps
+				// (the library decodes format 6 into a cmap.Format4)
+				if len(c.M) == 0 {
+					raw = []byte{0, 6, 0, 10, 0, 0, 0, 0, 0, 0}
+					break
+				}
+				lo, hi := c.M[0][0], c.M[len(c.M)-1][0]
+				cnt := hi - lo + 1
+				if lo < 0 || hi > 0xFFFF || cnt > 20000 {
+					return nil, fmt.Errorf("cmap format 6: code range %d..%d", lo, hi)
+				}
+				L := 10 + 2*cnt
+				raw = []byte{0, 6, byte(L >> 8), byte(L), 0, 0, byte(lo >> 8), byte(lo), byte(cnt >> 8), byte(cnt)}
+				arr := make([]byte, 2*cnt)
+				for _, e := range c.M {
+					arr[2*(e[0]-lo)] = byte(e[1] >> 8)
+					arr[2*(e[0]-lo)+1] = byte(e[1])
+				}
+				raw = append(raw, arr...)
+			case 0:
+				m := &cmap.Format0{}
+				for _, e := range c.M {
+					if e[0] < 0 || e[0] > 255 || e[1] < 0 || e[1] > 255 {
+						return nil, fmt.Errorf("cmap format 0: entry %v", e)
+					}
+					m.Data[e[0]] = byte(e[1])
+				}
+				st = m
+			case 2, 8, 10, 13, 14:
+				// formats the library knows but does not decode; a stub
+				raw = []byte{byte(c.Fmt >> 8), byte(c.Fmt), 0, 6, 0, 0}
 			default:
 				return nil, fmt.Errorf("unsupported cmap format %d", c.Fmt)
 			}
-			f.CMapTable[cmap.Key{PlatformID: uint16(c.PID), EncodingID: uint16(c.EID)}] = st.Encode(0)
+			if raw == nil {
+				raw = st.Encode(0)
+			}
+			f.CMapTable[cmap.Key{PlatformID: uint16(c.PID), EncodingID: uint16(c.EID)}] = raw
 		}
 	}
 	f.Gsub = gsubInfo(d)
@@ -316,6 +433,10 @@ func projectGsub(info *gtab.Info) [][]GsubSub {
 					}
 					sort.Slice(st.S2, func(a, b int) bool { return st.S2[a][0] < st.S2[b][0] })
 					lk = append(lk, st)
+				case *gtab.Gsub2_1:
+					lk = append(lk, projectMulti("mult", s.Cov, s.Repl))
+				case *gtab.Gsub3_1:
+					lk = append(lk, projectMulti("alt", s.Cov, s.Alternates))
 				case *gtab.Gsub4_1:
 					st := GsubSub{Kind: "lig"}
 					for g, idx := range s.Cov {
@@ -341,6 +462,21 @@ func projectGsub(info *gtab.Info) [][]GsubSub {
 		res = append(res, lk)
 	}
 	return res
+}
+
+func projectMulti(kind string, cov coverage.Table, outs [][]glyph.ID) GsubSub {
+	st := GsubSub{Kind: kind}
+	for g, idx := range cov {
+		e := MultiEnt{G: int(g), Outs: []int{}}
+		if idx >= 0 && idx < len(outs) {
+			for _, x := range outs[idx] {
+				e.Outs = append(e.Outs, int(x))
+			}
+		}
+		st.Multi = append(st.Multi, e)
+	}
+	sort.Slice(st.Multi, func(a, b int) bool { return st.Multi[a].G < st.Multi[b].G })
+	return st
 }
 
 func projectGpos(info *gtab.Info) [][][]Kern {
@@ -376,6 +512,20 @@ func projectGpos(info *gtab.Info) [][][]Kern {
 		res = append(res, lk)
 	}
 	return res
+}
+
+// rawCMap decodes a cmap subtable without any translation of its codes.
+func rawCMap(raw []byte) (st cmap.Subtable, err error) {
+	defer func() {
+		if e := recover(); e != nil {
+			st, err = nil, fmt.Errorf("panic: %v", e)
+		}
+	}()
+	if len(raw) < 2 {
+		return nil, fmt.Errorf("short subtable")
+	}
+	k := cmap.Key{PlatformID: 0, EncodingID: 3}
+	return cmap.Table{k: raw}.Get(k)
 }
 
 // Project maps a real font to the abstract font.  It never panics on the
@@ -423,6 +573,9 @@ func Project(f *sfnt.Font) (d *Desc) {
 			if g != nil {
 				r.W = int(g.Width)
 				r.N = nameID(g.Name)
+				if g.Name == "" && o.ROS != nil {
+					r.N = 0 // the glyphs of a CID-keyed font have no names in the file
+				}
 			}
 			if o.GIDToCID != nil {
 				r.C = -1
@@ -464,19 +617,31 @@ func Project(f *sfnt.Font) (d *Desc) {
 	})
 	for _, k := range keys {
 		c := CMap{PID: int(k.PlatformID), EID: int(k.EncodingID), Fmt: -1, M: [][2]int{}}
-		st, err := f.CMapTable.Get(k)
+		raw := f.CMapTable[k]
+		if len(raw) >= 2 {
+			c.Fmt = int(raw[0])<<8 | int(raw[1])
+		}
+		// the codes as they stand in the subtable (Table.Get translates the
+		// codes of Macintosh subtables to Unicode)
+		st, err := rawCMap(raw)
 		if err == nil {
 			switch m := st.(type) {
 			case cmap.Format4:
-				c.Fmt = 4
 				for code, g := range m {
 					c.M = append(c.M, [2]int{int(code), int(g)})
 				}
 			case cmap.Format12:
-				c.Fmt = 12
 				for code, g := range m {
 					c.M = append(c.M, [2]int{int(code), int(g)})
 				}
+			case *cmap.Format0:
+				for code, g := range m.Data {
+					if g != 0 {
+						c.M = append(c.M, [2]int{code, int(g)})
+					}
+				}
+			default:
+				c.Fmt = -1
 			}
 		}
 		sort.Slice(c.M, func(a, b int) bool { return c.M[a][0] < c.M[b][0] })
